@@ -60,6 +60,13 @@ def one_case(rng, tier):
             'n_items': n_items, 'start_at_0': True, 'none_at': none_at}
     if kind == 'from_textfile' and rng.random() < 0.4:
         case['from_end'] = True         # the file already has content, which is not to be delivered: only what is appended later
+    if kind in ('custom', 'from_periodic', 'custom_tornado') and rng.random() < 0.3:
+        # the consumer fails once: the exception ends the polling loop (the source stays "started"); a later stop(); ...; start()
+        # must bring it back to life
+        case['fail_at'] = rng.randrange(0, 4)
+        t_last = ops[-1][0] if ops else 0.0
+        ops.append([round(t_last + rng.choice([2.0, 3.0, 6.0]), 3), 'stop'])
+        ops.append([round(ops[-1][0] + rng.choice([0, 0.25, 1.0, 3.0]), 3), 'start'])
     if kind not in ('from_iterable', 'from_iterable_list') and rng.random() < 0.2:
         # start()/stop() are called on the last node of source -> map_async -> sink: they travel up the pipeline to the source
         case['via'] = 'map_async'
@@ -234,6 +241,7 @@ def check_case(case, counters, sets):
             src._emit = emit_wrapped
             svc = case['svc']
             k = {'n': 0}
+            fail_at = case.get('fail_at')
             if case['sink'] == 'coro':
                 async def sink(x):
                     i = k['n']
@@ -241,12 +249,18 @@ def check_case(case, counters, sets):
                     log.add('CALLED', 'sk', x, i)
                     if svc:
                         await asyncio.sleep(svc)
+                    if i == fail_at:
+                        log.add('CONSUMER_FAILED', 'sk', x, i)
+                        raise ConsumerFailedOnce(i)
                     log.add('END', 'sk', x, i)
             else:
                 def sink(x):
                     i = k['n']
                     k['n'] += 1
                     log.add('CALLED', 'sk', x, i)
+                    if i == fail_at:
+                        log.add('CONSUMER_FAILED', 'sk', x, i)
+                        raise ConsumerFailedOnce(i)
                     log.add('END', 'sk', x, i)
             ctl = src
             if case.get('via') == 'map_async':
@@ -296,8 +310,13 @@ def check_case(case, counters, sets):
     if reason == 'iter-cap':
         return None, None
     for name, msg, exc in errors:
+        if isinstance(exc, ConsumerFailedOnce):
+            counters['polling_loops_ended_by_a_consumer_failure'] = counters.get('polling_loops_ended_by_a_consumer_failure', 0) + 1
+            continue
         add('C18:loop-exception:%s' % (type(exc).__name__ if exc is not None else 'log'), '%s %s %r' % (name, msg[:200], exc))
     ev = log.ev
+    if kind in ('custom', 'from_periodic', 'custom_tornado', 'custom_listener'):
+        starts_take_effect(ev, ev[-1][1] if ev else 0, 2 * poll + 2 * case['svc'] + 0.5, kind, add, counters)
     for e in ev:
         if e[2] == 'CALL_RAISED':
             add('C18:lifecycle-call-raised:%s@%s' % (type(e[5]).__name__, kind + ('-through-' + case['via'] if case.get('via') else '')),
@@ -577,6 +596,35 @@ def check_process_case(case, counters, sets):
     return viols
 
 
+def starts_take_effect(ev, end_t, margin, kind, add, counters, cycle_kinds=('CYCLE_BEGIN', 'SRC_EMIT', 'POLL')):
+    """bounded progress: after a start() on a stopped source that stays started for `margin` (a couple of poll intervals plus
+    the consumer's service time), a polling cycle has begun -- whether a new loop was started or an old one carried on"""
+    spans, t0 = [], None
+    for e in ev:
+        if e[2] == 'START_CALL' and e[4]:
+            t0 = e[1]
+        elif e[2] == 'STOP_CALL' and not e[4] and t0 is not None:
+            spans.append((t0, e[1]))
+            t0 = None
+    if t0 is not None:
+        spans.append((t0, end_t))
+    cyc = [e[1] for e in ev if e[2] in cycle_kinds]
+    died = [e[1] for e in ev if e[2] == 'CONSUMER_FAILED']
+    for a, b in spans:
+        if any(a <= t <= b for t in died):
+            continue            # the loop was ended by the consumer's exception inside this span: not a matter of start()
+        if b - a >= margin:
+            counters['effective_starts_checked_for_effect'] = counters.get('effective_starts_checked_for_effect', 0) + 1
+            if not any(a <= t <= b for t in cyc):
+                add('C18:start-had-no-effect@%s' % kind, 'start() on the stopped source at t=%s; it stayed started until t=%s and no polling '
+                    'cycle began in that time' % (a, b))
+                return
+
+
+class ConsumerFailedOnce(Exception):
+    pass
+
+
 def check_http_keepalive_case(case, counters, sets):
     """from_http_server on a real loop and a real socket: a client keeps its connection open (HTTP/1.1 keep-alive), POSTs
     `before` bodies, the source is stopped, and the client POSTs `after` more bodies on the connection it already has.
@@ -724,6 +772,7 @@ def check_pdf_case(case, counters, sets):
                 after_stop[rid] = after_stop.get(rid, 0) + 1
                 if after_stop[rid] > 1:         # the cycle in progress (sleep, then poll) may finish: one more poll, not two
                     add('C18:cycle-begun-while-stopped@PeriodicDataFrame', 'loop #%d polled a second time after stop(), at t=%s' % (rid, e[1]))
+    starts_take_effect(ev, ev[-1][1] if ev else 0, 2 * case['poll'] + 0.5, 'PeriodicDataFrame', add, counters)
     if eff_starts > 1:
         counters['restart_histories'] = counters.get('restart_histories', 0) + 1
     sets.setdefault('source_kinds', set()).add('PeriodicDataFrame')
